@@ -56,7 +56,7 @@ theorem entLe_trans {a b c : World} (h1 : EntLe a b) (h2 : EntLe b c) : EntLe a 
     well-formed entity map, on EVERY exit (normal return, panic, marker): the entity map is well formed again and
     every slot is still there at a rank that is at least as high.  (Per function: the `_ei` lemmas of
     `Proofs/EntHistory.lean` — `deliverOne_ei`, `runHandler_ei`, `spawnAll_ei`, `removeEntity_ei`,
-    `archsRemoveComponent_ei`, `flush_ei`, `removeComponent_ei`, … 58 functions.) -/
+    `archsRemoveComponent_ei`, `flush_ei`, `removeComponent_ei`, … 55 lemmas.) -/
 theorem execOp_monotone {w : World} {op : Op} (hv : op.Valid) (wf : w.entities.WF) :
     ((execOp op).run.run w).2.entities.WF ∧ EntLe w ((execOp op).run.run w).2 :=
   execOp_entLe hv wf
